@@ -1304,6 +1304,17 @@ class Interp:
             ast.Mod: o.mod, ast.Pow: o.pow, ast.BitAnd: o.and_, ast.BitOr: o.or_, ast.BitXor: o.xor,
             ast.LShift: o.lshift, ast.RShift: o.rshift, ast.MatMult: o.matmul,
         }
+        from .values import PKeys
+
+        if isinstance(a, PKeys) and isinstance(b, (PKeys, set, frozenset)) and isinstance(op, (ast.BitAnd, ast.BitOr, ast.Sub)):
+            # key views behave like sets (T-py); the result is a set, modelled by a duplicate-free PList (iteration order
+            # of a set is unspecified: code that depends on it is outside the model anyway)
+            other = list(b.items) if isinstance(b, PKeys) else list(b)
+            if isinstance(op, ast.BitAnd):
+                return PList([k for k in a.items if k in other])
+            if isinstance(op, ast.Sub):
+                return PList([k for k in a.items if k not in other])
+            return PList(list(a.items) + [k for k in other if k not in a.items])
         if isinstance(a, PList) and isinstance(b, PList) and isinstance(op, ast.Add):
             return PList(a.items + b.items)
         if isinstance(a, PList) and isinstance(b, int) and isinstance(op, ast.Mult):
